@@ -316,7 +316,7 @@ local macro "c13_eval" "[" ts:Lean.Parser.Tactic.simpLemma,* "]" : tactic => `(t
   simp [$ts,*, resOfRoot, runCalls, renderRoot, renderList, renderNode, renderBranches,
     renderBlockBody, evalCond, wrapFailAt, wrapAt, M.mapFail, M.bind, M.pure, M.fail, M.getVar, writeM, trimLeftM, trimRightM, flushM,
     captureM, Prog.bind, Prog.mapFail, Prog.runPure, Prog.calls, bind, pure, mkCtx, hyPrims, M.setVar, M.getEnv, M.ofRes, evaluate,
-    eval, Env.set, Env.get, GoVal.toLiquid, GoVal.unwrap, GoVal.isNil, GoVal.test, hyOut, writeAllM, Status.wrap, cyclesOf, errorfAt,
+    eval, Env.set, Env.get, GoVal.toLiquid, GoVal.unwrap, GoVal.isNil, GoVal.test, hyOut, writeAllM, writeVerbatimM, Status.wrap, cyclesOf, errorfAt,
     wrapError])
 
 /-- with `v` = `"x"` the source renders `axbc␠` -/
@@ -433,9 +433,12 @@ def c13RawHy : List Item := [.tag rawName [] false true [32] [] [], .text [120],
 
 /-- **`RawPlain` is needed.** Inside a raw block the parser keeps every token as a slice of the body, a trim marker as
     an EMPTY slice: `{% raw -%}x{% endraw %}` compiles to `raw ["", "x"]`, `{% raw %}x{% endraw %}` to `raw ["x"]`, and
-    `stripTrims` does not touch raw nodes. (The hyphen does not trim the body: Go renders `{% raw -%}  y{% endraw %}` as
-    `␠␠y`; the empty slice is an empty `Write`, which clears a pending right trim: `{{ x -}}{% raw -%}  y{% endraw %}`
-    renders `X␠␠y`, `{{ x -}}{% raw %}  y{% endraw %}` renders `Xy` — the `hyphens` stream compares these.) -/
+    `stripTrims` does not touch raw nodes: the two TREES differ, and so do the operation lists (the empty slice is one
+    more verbatim write), which is what `compile_dropHyphens` and `hyphen_source_ops` speak about. The OUTPUT no longer
+    differs: the hyphen does not trim the body (Go renders `{% raw -%}  y{% endraw %}` as `␠␠y`), and since the repair
+    `fixes/verbatim-output-not-trimmed` no neighbour's hyphen does either — `{{ x -}}{% raw -%}  y{% endraw %}` and
+    `{{ x -}}{% raw %}  y{% endraw %}` both render `X␠␠y` (before the repair the second rendered `Xy`; the second is
+    `raw_after_right_hyphen_source` in `Proofs/C05Verbatim.lean`, the `hyphens` stream compares both). -/
 example : GoodDelims Delims.default ∧ Clean Delims.default c13RawHy ∧ Clean Delims.default (dropHyphens c13RawHy) ∧
     RawClosed c13RawHy ∧ ¬ RawPlain c13RawHy ∧
     compileSource [] (spell Delims.default c13RawHy) 1 = .ok [.raw [[], [120]]] ∧
